@@ -1,7 +1,7 @@
 (** [run_line]: one case line in, one observation line out (model side of the
     correspondence check). *)
 From Coq Require Import String.
-From JP Require Import Base F64 Value Sig Slice JsonRead JsonPrint Functions Interp Lexer Parser History Wire Spec.SliceSpec Spec.Semantics.
+From JP Require Import Base F64 Value Sig Slice JsonRead JsonPrint Functions Interp Lexer Parser History Serde Cli Wire Spec.SliceSpec Spec.Semantics.
 
 Definition K_slice := Eval compute in s2l "slice".
 Definition K_index := Eval compute in s2l "index".
@@ -288,6 +288,220 @@ Definition run_hist (ts : list tok) : list tok :=
   | None => bad
   end.
 
+(* ---------- C08 / C14 / C17 surfaces ---------- *)
+Definition K_json := Eval compute in s2l "json".
+Definition K_ser := Eval compute in s2l "ser".
+Definition K_de := Eval compute in s2l "de".
+Definition K_conv := Eval compute in s2l "conv".
+Definition K_T := [84]. Definition K_R := [82]. Definition K_V := [86].
+Definition K_var := Eval compute in s2l "var".
+Definition K_str := Eval compute in s2l "str".
+Definition K_unit := Eval compute in s2l "unit".
+Definition K_f32 := Eval compute in s2l "f32".
+Definition K_f64 := Eval compute in s2l "f64".
+
+(** json <text> : from_json, identity search, printed text, re-parse, Value round trip *)
+Definition run_json (ts : list tok) : list tok :=
+  match ts with
+  | [t] =>
+      match parse_str t with
+      | Some text =>
+          match from_json text with
+          | Ok None => [K_ERR; K_json]
+          | Ok (Some v) =>
+              match search_ast fuel_default default_runtime AIdentity v, print_json v with
+              | Ok r, Ok txt =>
+                  let reparsed := match from_json txt with Ok (Some v2) => var_eq v2 r | _ => false end in
+                  K_OK :: pr_value r ++ [K_T; print_str txt; K_R; [if reparsed then 116 else 102]; K_V; [116]]
+              | _, _ => [K_UNMODELLED]
+              end
+          | _ => [K_UNMODELLED]
+          end
+      | None => bad
+      end
+  | _ => bad
+  end.
+
+Definition tok_is (t : tok) (s : string) : bool := str_eqb t (s2l s).
+
+Fixpoint rd_sval (fuel : nat) (ts : list tok) : option (sval * list tok) :=
+  match fuel with
+  | O => None
+  | S f =>
+      match ts with
+      | [] => None
+      | t :: r =>
+          let int1 := match r with n :: r' => option_map (fun z => (SInt z, r')) (parse_int n) | [] => None end in
+          let name1 (k : str -> sval) := match r with n :: r' => option_map (fun s => (k s, r')) (parse_str n) | [] => None end in
+          let lst (k : list sval -> sval) (r : list tok) :=
+            match r with [91] :: r' => option_map (fun '(l, r'') => (k l, r'')) (rd_svals f r') | _ => None end in
+          let flds (k : list (str * sval) -> sval) (r : list tok) :=
+            match r with [123] :: r' => option_map (fun '(l, r'') => (k l, r'')) (rd_sfields f r') | _ => None end in
+          if tok_is t "B" then match r with [116] :: r' => Some (SBool true, r') | [102] :: r' => Some (SBool false, r') | _ => None end
+          else if tok_is t "I8" || tok_is t "I16" || tok_is t "I32" || tok_is t "I64"
+               || tok_is t "U8" || tok_is t "U16" || tok_is t "U32" || tok_is t "U64" then int1
+          else if tok_is t "F32" then match r with n :: r' => option_map (fun z => (SF32 (f_of_bits32 z), r')) (hex_go n 0) | [] => None end
+          else if tok_is t "F64" then match r with n :: r' => option_map (fun z => (SF64 (f_of_bits z), r')) (hex_go n 0) | [] => None end
+          else if tok_is t "C" then match r with n :: r' => option_map (fun z => (SChar z, r')) (parse_nat n) | [] => None end
+          else if tok_is t "S" then name1 SStr
+          else if tok_is t "Y" then
+            match r with
+            | [91] :: r' =>
+                (fix go (fu : nat) (r : list tok) (acc : list Z) : option (sval * list tok) :=
+                   match fu with
+                   | O => None
+                   | S fu' =>
+                       match r with
+                       | [93] :: r'' => Some (SBytes (rev acc), r'')
+                       | n :: r'' => match parse_nat n with Some z => go fu' r'' (z :: acc) | None => None end
+                       | [] => None
+                       end
+                   end) f r' []
+            | _ => None
+            end
+          else if tok_is t "None" then Some (SNone, r)
+          else if tok_is t "Some" then option_map (fun '(v, r') => (SSome v, r')) (rd_sval f r)
+          else if tok_is t "Unit" then Some (SUnit, r)
+          else if tok_is t "UStruct" then Some (SUnitStruct, r)
+          else if tok_is t "UVar" then name1 SUnitVariant
+          else if tok_is t "NStruct" then option_map (fun '(v, r') => (SNewtypeStruct v, r')) (rd_sval f r)
+          else if tok_is t "NVar" then
+            match r with n :: r' => match parse_str n with Some s => option_map (fun '(v, r'') => (SNewtypeVariant s v, r'')) (rd_sval f r') | None => None end | [] => None end
+          else if tok_is t "Seq" then lst SSeq r
+          else if tok_is t "Tup" then lst STuple r
+          else if tok_is t "TStruct" then lst STupleStruct r
+          else if tok_is t "TVar" then
+            match r with n :: r' => match parse_str n with Some s => lst (STupleVariant s) r' | None => None end | [] => None end
+          else if tok_is t "Map" then
+            match r with [123] :: r' => option_map (fun '(l, r'') => (SMap l, r'')) (rd_spairs f r') | _ => None end
+          else if tok_is t "Struct" then flds SStruct r
+          else if tok_is t "SVar" then
+            match r with n :: r' => match parse_str n with Some s => flds (SStructVariant s) r' | None => None end | [] => None end
+          else None
+      end
+  end
+with rd_svals (fuel : nat) (ts : list tok) : option (list sval * list tok) :=
+  match fuel with
+  | O => None
+  | S f =>
+      match ts with
+      | [93] :: r => Some ([], r)
+      | _ => match rd_sval f ts with
+             | Some (v, r) => option_map (fun '(l, r') => (v :: l, r')) (rd_svals f r)
+             | None => None
+             end
+      end
+  end
+with rd_sfields (fuel : nat) (ts : list tok) : option (list (str * sval) * list tok) :=
+  match fuel with
+  | O => None
+  | S f =>
+      match ts with
+      | [125] :: r => Some ([], r)
+      | k :: r =>
+          match parse_str k with
+          | Some ks => match rd_sval f r with
+                       | Some (v, r') => option_map (fun '(l, r'') => ((ks, v) :: l, r'')) (rd_sfields f r')
+                       | None => None
+                       end
+          | None => None
+          end
+      | [] => None
+      end
+  end
+with rd_spairs (fuel : nat) (ts : list tok) : option (list (sval * sval) * list tok) :=
+  match fuel with
+  | O => None
+  | S f =>
+      match ts with
+      | [125] :: r => Some ([], r)
+      | _ =>
+          match rd_sval f ts with
+          | Some (k, r) => match rd_sval f r with
+                           | Some (v, r') => option_map (fun '(l, r'') => ((k, v) :: l, r'')) (rd_spairs f r')
+                           | None => None
+                           end
+          | None => None
+          end
+      end
+  end.
+
+Definition pr_sres (r : sres value) : list tok :=
+  match r with SOk v => K_OK :: pr_value v | SErr => [K_ERR] end.
+
+(** ser <dyn> : typed value as searched by the library | its serde_json image | the four probe searches agree *)
+Definition run_ser (ts : list tok) : list tok :=
+  match rd_sval (S (length ts)) ts with
+  | Some (v, []) =>
+      let a := ser_var v in
+      let b := ser_json v in
+      pr_sres a ++ [124] :: pr_sres b ++
+        [124] :: match a, b with SOk _, SOk _ => [[61]; [61]; [61]; [61]] | _, _ => [] end
+  | _ => bad
+  end.
+
+Definition K_conv_err := Eval compute in s2l "conv".
+Definition rd_input (ts : list tok) : option input :=
+  match ts with
+  | k :: r =>
+      if str_eqb k K_json then match rd_value (S (length r)) r with Some (v, []) => Some (IJson v) | _ => None end
+      else if str_eqb k K_var then match rd_value (S (length r)) r with Some (v, []) => Some (IVar v) | _ => None end
+      else if str_eqb k K_str then match r with [t] => option_map IStr (parse_str t) | _ => None end
+      else if str_eqb k K_f32 then match r with [t] => option_map (fun z => IF32 (f_of_bits32 z)) (hex_go t 0) | _ => None end
+      else if str_eqb k K_f64 then match r with [t] => option_map (fun z => IF64 (f_of_bits z)) (hex_go t 0) | _ => None end
+      else if str_eqb k K_unit then Some IUnit
+      else if str_eqb k K_bool then match r with [[116]] => Some (IBool true) | [[102]] => Some (IBool false) | _ => None end
+      else match r with [t] => option_map IInt (parse_int t) | _ => None end
+  | [] => None
+  end.
+
+(** conv <kind> <payload> : the generic serde path (what every build without [specialized] runs);
+    convspec ... : the specialised impls *)
+Definition run_conv (special : bool) (ts : list tok) : list tok :=
+  match rd_input ts with
+  | Some i =>
+      match (if special then conv_special i else conv_generic i) with
+      | SOk v => K_OK :: pr_value v
+      | SErr => [K_ERR; K_conv_err]
+      end
+  | None => bad
+  end.
+Definition K_convspec := Eval compute in s2l "convspec".
+
+(* ---------- C18: jp ---------- *)
+Definition K_cli := Eval compute in s2l "cli".
+Definition K_EXIT := Eval compute in s2l "EXIT".
+Definition K_OUT := Eval compute in s2l "OUT".
+Definition K_AST := Eval compute in s2l "AST".
+
+Definition parse_optstr (t : tok) : option (option str) :=
+  match t with [95] => Some None | _ => option_map Some (parse_str t) end.
+
+(** cli <flags> <expr|_> <input|_> ; flags: a string over {u, a} or [-] *)
+Definition run_cli (ts : list tok) : list tok :=
+  match ts with
+  | [fl; e; i] =>
+      match parse_optstr e, parse_optstr i with
+      | Some e', Some i' =>
+          let u := existsb (Z.eqb 117) fl in
+          let a := existsb (Z.eqb 97) fl in
+          let '(code, out, err) := jp u a e' i' in
+          match out with
+          | Ok None => [K_EXIT; print_nat code; K_OUT; print_str []; K_ERR; [if err then 116 else 102]]
+          | Ok (Some (OutText t)) => [K_EXIT; print_nat code; K_OUT; print_str t; K_ERR; [if err then 116 else 102]]
+          | Ok (Some OutAstDump) => [K_EXIT; print_nat code; K_OUT; K_AST; K_ERR; [if err then 116 else 102]]
+          | Err _ => bad | Trap => [K_TRAP] | OOF => [K_OOF] | Unmodelled => [K_UNMODELLED]
+          end
+      | _, _ => bad
+      end
+  | _ => bad
+  end.
+
+Definition K_threads := Eval compute in s2l "threads".
+(** threads <n> <rounds> <text> <doc> : what every thread must observe = the sequential result *)
+Definition run_threads (ts : list tok) : list tok :=
+  match ts with _ :: _ :: r => run_search r | _ => bad end.
+
 Definition run_tokens (ts : list tok) : list tok :=
   match ts with
   | k :: r =>
@@ -301,6 +515,13 @@ Definition run_tokens (ts : list tok) : list tok :=
       else if str_eqb k K_speceval then run_speceval r
       else if str_eqb k K_refparse then run_refparse r
       else if str_eqb k K_hist then run_hist r
+      else if str_eqb k K_json then run_json r
+      else if str_eqb k K_cli then run_cli r
+      else if str_eqb k K_threads then run_threads r
+      else if str_eqb k K_ser then run_ser r
+      else if str_eqb k K_de then [K_UNMODELLED]
+      else if str_eqb k K_conv then run_conv false r
+      else if str_eqb k K_convspec then run_conv true r
       else if str_eqb k K_search then run_search r
       else bad
   | [] => bad
